@@ -297,7 +297,7 @@ Qed.
 
 Lemma chunk_get_authentic_lemma (H : bytes -> N) rp a c : chunk_get H rp a = inl c -> H c = a.
 Proof.
-  unfold chunk_get. destruct (get_record rp) as [r|e]; [|discriminate].
+  unfold chunk_get. destruct (get_record a rp) as [r|e]; [|discriminate].
   destruct (r_hdr r) as [k|]; [|discriminate].
   destruct (k =? KIND_CHUNK); [|discriminate].
   destruct (parse_chunk r) as [c'|]; [|discriminate].
@@ -306,22 +306,23 @@ Qed.
 
 (* an honest holder's reply is accepted *)
 
-Lemma chunk_get_honest (H : bytes -> N) c : chunk_get H (ROk (chunk_record c)) (H c) = inl c.
+(* ... whatever key the record carries *)
+Lemma chunk_get_honest (H : bytes -> N) k c : chunk_get H (ROk (chunk_record k c)) (H c) = inl c.
 Proof.
   unfold chunk_get, chunk_record. cbn. rewrite N.eqb_refl. reflexivity.
 Qed.
 
-(* a returned chunk is one the network supplied in a record of kind Chunk *)
+(* a returned chunk is one the network supplied in a record of kind Chunk (under any key) *)
 Lemma chunk_get_from_reply (H : bytes -> N) rp a c :
-  chunk_get H rp a = inl c -> rp = ROk {| r_hdr := Some KIND_CHUNK; r_body := BChunk c |}.
+  chunk_get H rp a = inl c -> exists k, rp = ROk (chunk_record k c).
 Proof.
   unfold chunk_get. destruct rp as [r|e]; cbn [get_record].
-  - destruct r as [[k|] b]; cbn [r_hdr]; [|discriminate].
+  - destruct r as [k0 [k|] b]; cbn [r_hdr]; [|discriminate].
     destruct (k =? KIND_CHUNK) eqn:K; [|discriminate]. apply N.eqb_eq in K. subst k.
     unfold parse_chunk. cbn [r_body]. destruct b as [c'| |]; try discriminate.
-    destruct (H c' =? a); [|discriminate]. intros X. inversion X. reflexivity.
+    destruct (H c' =? a); [|discriminate]. intros X. inversion X. exists k0. reflexivity.
   - destruct e as [| | | | |m]; try discriminate.
-    destruct (handle_split m) as [r|] eqn:Hs; [|discriminate].
+    destruct (handle_split a m) as [r|] eqn:Hs; [|discriminate].
     unfold handle_split in Hs. destruct (1 <? N.of_nat (List.length m)); [|discriminate].
     destruct (split_loop None None m); [|discriminate]. inversion Hs; subst r. cbn [r_hdr].
     destruct (KIND_SCRATCHPAD =? KIND_CHUNK) eqn:K; [discriminate K|discriminate].
@@ -329,8 +330,8 @@ Qed.
 
 (* ---------------------------------------------------------------- vault *)
 
-Lemma get_vault_spec rp pk p :
-  get_vault rp pk = inl p ->
+Lemma get_vault_spec key rp pk p :
+  get_vault key rp pk = inl p ->
   In p (all_pads rp) /\ authentic pk p = true /\
   forall q, In q (received rp) -> authentic pk q = true -> p_counter q <= p_counter p.
 Proof.
@@ -341,7 +342,7 @@ Proof.
     intros q. destruct (r_hdr r) as [k|]; [|intros []].
     destruct (k =? KIND_SCRATCHPAD); [|intros []]. intros [->|[]] _. lia.
   - destruct e as [| | | | |m]; try discriminate.
-    destruct (handle_split m) as [r|] eqn:Hs.
+    destruct (handle_split key m) as [r|] eqn:Hs.
     + unfold handle_split in Hs. destruct (1 <? N.of_nat (List.length m)); [|discriminate].
       destruct (split_loop None None m) as [b|] eqn:L; [|discriminate]. inversion Hs; subst r.
       unfold parse_pad. cbn [r_body]. destruct (authentic pk b) eqn:A; [|discriminate].
@@ -352,58 +353,58 @@ Proof.
       split; [exact A|]. intros q Q1 Q2. apply M; [apply wf_pads_incl; exact Q1|exact Q2].
 Qed.
 
-Lemma vault_signed_by_owner_lemma rp pk p :
-  get_vault rp pk = inl p -> p_owner p = pk /\ is_valid p = true.
+Lemma vault_signed_by_owner_lemma key rp pk p :
+  get_vault key rp pk = inl p -> p_owner p = pk /\ is_valid p = true.
 Proof. intros E. apply get_vault_spec in E. destruct E as (_ & A & _). apply authentic_iff. exact A. Qed.
 
-Lemma vault_highest_lemma rp pk p :
-  get_vault rp pk = inl p ->
+Lemma vault_highest_lemma key rp pk p :
+  get_vault key rp pk = inl p ->
   forall q, In q (received rp) -> authentic pk q = true -> p_counter q <= p_counter p.
 Proof. intros E. apply get_vault_spec in E. tauto. Qed.
 
-Lemma vault_fails_lemma rp pk :
-  (forall q, In q (all_pads rp) -> authentic pk q = false) -> exists e, get_vault rp pk = inr e.
+Lemma vault_fails_lemma key rp pk :
+  (forall q, In q (all_pads rp) -> authentic pk q = false) -> exists e, get_vault key rp pk = inr e.
 Proof.
-  intros N. destruct (get_vault rp pk) as [p|e] eqn:E; [|eauto].
+  intros N. destruct (get_vault key rp pk) as [p|e] eqn:E; [|eauto].
   apply get_vault_spec in E. destruct E as (I & A & _). rewrite (N p I) in A. discriminate.
 Qed.
 
 (* what fetch_and_decrypt_vault hands to the application was encrypted to the requested key inside
    a pad that key owns and signed, and is the newest such version received *)
-Lemma fetch_decrypt_lemma rp sk m e :
-  fetch_and_decrypt_vault rp sk = VOk m e ->
+Lemma fetch_decrypt_lemma key rp sk m e :
+  fetch_and_decrypt_vault key rp sk = VOk m e ->
   exists p, In p (all_pads rp) /\ authentic sk p = true /\ c_to (p_ct p) = Some sk /\
             c_plain (p_ct p) = m /\ p_encoding p = e /\
             forall q, In q (received rp) -> authentic sk q = true -> p_counter q <= p_counter p.
 Proof.
-  unfold fetch_and_decrypt_vault. destruct (get_vault rp sk) as [p|er] eqn:G; [|discriminate].
+  unfold fetch_and_decrypt_vault. destruct (get_vault key rp sk) as [p|er] eqn:G; [|discriminate].
   unfold decrypt_data. destruct (c_to (p_ct p)) as [k|] eqn:T; [|discriminate].
   destruct (k =? sk) eqn:K; [|discriminate]. apply N.eqb_eq in K. subst k.
   intros X. inversion X; subst. apply get_vault_spec in G. destruct G as (I & A & M).
   exists p. repeat split; auto.
 Qed.
 
-Lemma fetch_fails_lemma rp sk :
-  (forall q, In q (all_pads rp) -> authentic sk q = false) -> exists e, fetch_and_decrypt_vault rp sk = VErr e.
+Lemma fetch_fails_lemma key rp sk :
+  (forall q, In q (all_pads rp) -> authentic sk q = false) -> exists e, fetch_and_decrypt_vault key rp sk = VErr e.
 Proof.
-  intros N. unfold fetch_and_decrypt_vault. destruct (vault_fails_lemma rp sk N) as [e ->]. eauto.
+  intros N. unfold fetch_and_decrypt_vault. destruct (vault_fails_lemma key rp sk N) as [e ->]. eauto.
 Qed.
 
 (* honest flows *)
 
-Lemma get_vault_honest pk p : authentic pk p = true -> get_vault (ROk (pad_record p)) pk = inl p.
+Lemma get_vault_honest key k pk p : authentic pk p = true -> get_vault key (ROk (pad_record k p)) pk = inl p.
 Proof. intros A. unfold get_vault, pad_record, parse_pad. cbn. rewrite A. reflexivity. Qed.
 
 (* a split of well-formed versions, at least one of them authentic, never fails *)
-Lemma get_vault_split_complete pk m q :
+Lemma get_vault_split_complete key pk m q :
   Forall (fun r => r_hdr r = Some KIND_SCRATCHPAD /\ exists p, parse_pad r = Some p /\ authentic pk p = true) m ->
-  In q (pads_of m) -> exists p, get_vault (RErr (GSplit m)) pk = inl p.
+  In q (pads_of m) -> exists p, get_vault key (RErr (GSplit m)) pk = inl p.
 Proof.
   intros F I. unfold get_vault. cbn [get_record].
   assert (AllAuth : forall x, In x (pads_of m) -> authentic pk x = true).
   { intros x Ix. apply pads_of_In in Ix. destruct Ix as (r & Ir & Pr).
     rewrite Forall_forall in F. destruct (F r Ir) as (_ & p & Pp & Ap). congruence. }
-  destruct (handle_split m) as [r|] eqn:Hs.
+  destruct (handle_split key m) as [r|] eqn:Hs.
   - unfold handle_split in Hs. destruct (1 <? N.of_nat (List.length m)); [|discriminate].
     destruct (split_loop None None m) as [b|] eqn:L; [|discriminate]. inversion Hs; subst r.
     unfold parse_pad. cbn [r_body]. apply split_loop_spec in L. destruct L as (Ib & _ & _).
@@ -428,37 +429,69 @@ Definition foreign50 := signed_pad 1 1 50 (ct_ex 0 4 [6;6;6]).    (* key 1's own
 Definition unsigned70 : pad :=
   {| p_owner := 0; p_encoding := 7; p_ct := ct_ex 0 5 [9]; p_counter := 70; p_sig := None |}.
 
+(* the keys on the returned records (here 11, 22, 33, 44, none of them the requested 7) play no role *)
 Example ex_vault_split_picks_highest_authentic :
-  get_vault (RErr (GSplit [pad_record good5; pad_record forged99; pad_record good9; pad_record unsigned70])) 0
+  get_vault 7 (RErr (GSplit [pad_record 11 good5; pad_record 22 forged99; pad_record 33 good9; pad_record 44 unsigned70])) 0
   = inl good9.
 Proof. vm_compute. reflexivity. Qed.
 
-Example ex_vault_foreign_rejected : get_vault (ROk (pad_record foreign50)) 0 = inr VInvalidPad.
+Example ex_vault_foreign_rejected : get_vault 7 (ROk (pad_record 7 foreign50)) 0 = inr VInvalidPad.
 Proof. vm_compute. reflexivity. Qed.
 
 Example ex_vault_forged_rejected :
-  fetch_and_decrypt_vault (ROk (pad_record forged99)) 0 = VErr VInvalidPad.
+  fetch_and_decrypt_vault 7 (ROk (pad_record 7 forged99)) 0 = VErr VInvalidPad.
 Proof. vm_compute. reflexivity. Qed.
 
 Example ex_vault_single_split_unsigned :
-  get_vault (RErr (GSplit [pad_record unsigned70])) 0 = inr VMissing.
+  get_vault 7 (RErr (GSplit [pad_record 7 unsigned70])) 0 = inr VMissing.
 Proof. vm_compute. reflexivity. Qed.
 
-Example ex_fetch_ok : fetch_and_decrypt_vault (ROk (pad_record good5)) 0 = VOk [1;2;3] 7.
+Example ex_fetch_ok : fetch_and_decrypt_vault 7 (ROk (pad_record 9 good5)) 0 = VOk [1;2;3] 7.
 Proof. vm_compute. reflexivity. Qed.
 
-Example ex_chunk_get_ok : chunk_get (fun c => N.of_nat (List.length c)) (ROk (chunk_record [7;7])) 2 = inl [7;7].
+Example ex_chunk_get_ok : chunk_get (fun c => N.of_nat (List.length c)) (ROk (chunk_record 2 [7;7])) 2 = inl [7;7].
 Proof. vm_compute. reflexivity. Qed.
 
 Example ex_chunk_get_substituted :
-  chunk_get (fun c => N.of_nat (List.length c)) (ROk (chunk_record [7;7;7])) 2 = inr (CNet GDoesNotMatch).
+  chunk_get (fun c => N.of_nat (List.length c)) (ROk (chunk_record 2 [7;7;7])) 2 = inr (CNet GDoesNotMatch).
 Proof. vm_compute. reflexivity. Qed.
+
+(* the whole record replaced by a well-formed record of another chunk (keyed with that chunk's own
+   address, 3): still rejected, because the comparison is with the requested address *)
+Example ex_chunk_get_whole_record_substituted :
+  chunk_get (fun c => N.of_nat (List.length c)) (ROk (chunk_record 3 [7;7;7])) 2 = inr (CNet GDoesNotMatch).
+Proof. vm_compute. reflexivity. Qed.
+
+(* a chunk_get that compares the recomputed address with the key carried by the returned record
+   instead of the requested address is unsound: the holders choose that key *)
+Definition chunk_get_vs_record_key (H : bytes -> N) (rp : reply) (addr : N) : bytes + cerr :=
+  match get_record addr rp with
+  | inr e => inr (CNet e)
+  | inl r =>
+      match r_hdr r with
+      | None => inr CHeader
+      | Some k =>
+          if k =? KIND_CHUNK then
+            match parse_chunk r with
+            | None => inr CDeser
+            | Some c => if H c =? r_key r then inl c else inr (CNet GDoesNotMatch)
+            end
+          else inr CKind
+      end
+  end.
+
+Lemma chunk_get_vs_record_key_refuted :
+  exists (H : bytes -> N) rp a c, chunk_get_vs_record_key H rp a = inl c /\ H c <> a.
+Proof.
+  exists (fun c => N.of_nat (List.length c)), (ROk (chunk_record 3 [7;7;7])), 2, [7;7;7].
+  split; [reflexivity|]. vm_compute. discriminate.
+Qed.
 
 (* ---------------------------------------------------------------- the code before the repairs (F20) *)
 
 (* chunk_get as it was: the address is recomputed while deserialising but never compared *)
-Definition chunk_get_legacy (rp : reply) : bytes + cerr :=
-  match get_record rp with
+Definition chunk_get_legacy (addr : N) (rp : reply) : bytes + cerr :=
+  match get_record addr rp with
   | inr e => inr (CNet e)
   | inl r =>
       match r_hdr r with
@@ -469,9 +502,9 @@ Definition chunk_get_legacy (rp : reply) : bytes + cerr :=
   end.
 
 Lemma chunk_get_legacy_refuted :
-  exists (H : bytes -> N) rp a c, chunk_get_legacy rp = inl c /\ H c <> a.
+  exists (H : bytes -> N) rp a c, chunk_get_legacy a rp = inl c /\ H c <> a.
 Proof.
-  exists (fun c => N.of_nat (List.length c)), (ROk (chunk_record [7;7;7])), 2, [7;7;7].
+  exists (fun c => N.of_nat (List.length c)), (ROk (chunk_record 2 [7;7;7])), 2, [7;7;7].
   split; [reflexivity|]. vm_compute. discriminate.
 Qed.
 
@@ -493,7 +526,7 @@ Definition vault_pick_legacy (m : list record) : pad + verr :=
   end.
 
 Definition get_vault_legacy (rp : reply) : pad + verr :=
-  match get_record rp with
+  match get_record 7 rp with
   | inl r => match parse_pad r with None => inr VInvalidPad | Some p => inl p end
   | inr (GSplit m) => vault_pick_legacy m
   | inr e => inr (VNet e)
@@ -506,10 +539,10 @@ Lemma vault_legacy_refuted :
                exists q, In q (pads_of m) /\ authentic 0 q = true).
 Proof.
   split; [|split].
-  - exists (ROk (pad_record forged99)), forged99. vm_compute. auto.
-  - exists (ROk (pad_record foreign50)), foreign50. vm_compute. repeat split; auto. discriminate.
+  - exists (ROk (pad_record 7 forged99)), forged99. vm_compute. auto.
+  - exists (ROk (pad_record 7 foreign50)), foreign50. vm_compute. repeat split; auto. discriminate.
   - (* the first version's header says Chunk, so the network layer gives up and the client is handed
        the raw split: it takes the highest counter without validating anything *)
-    exists [{| r_hdr := Some KIND_CHUNK; r_body := BPad forged99 |}; pad_record good5], forged99.
+    exists [{| r_key := 7; r_hdr := Some KIND_CHUNK; r_body := BPad forged99 |}; pad_record 7 good5], forged99.
     vm_compute. split; [reflexivity|]. split; [reflexivity|]. exists good5. auto.
 Qed.
